@@ -57,7 +57,7 @@ type pluginObs struct {
 	Pid        int      `json:"pid"`
 	AfterStart int      `json:"after_start"` // 0 gone, 1 zombie, 2 running
 	AfterStop  int      `json:"after_stop"`
-	Reaped     int      `json:"reaped_after_drop"` // dielater only: state some time after the event that dropped it
+	Reaped     int      `json:"reaped_after_drop"` // dielater / hanglater, not silent: state some time after the event that dropped it
 }
 
 type eventObs struct {
@@ -74,6 +74,11 @@ type launchCase struct {
 	Dropins  []dropin          `json:"dropins"`
 	Outcomes map[string]string `json:"outcomes"`
 	Listen   bool              `json:"listen"`
+	// "dies later, then Stop with nothing in between": after the plugins marked dielater / hanglater have lost
+	// their connection the driver sends NO event or request; it waits until the runtime has noticed and calls Stop
+	Silent    bool `json:"silent_stop"`
+	PreEvents bool `json:"pre_events"` // silent cases: two events are sent before the connections are lost
+	Noticed   bool `json:"noticed_before_stop"`
 	StartOK  bool              `json:"start_ok"`
 	StartErr string            `json:"start_err"`
 	Obs      []pluginObs       `json:"obs"`
@@ -306,6 +311,7 @@ func (e *launchEnv) run(lc *launchCase) error {
 	} else {
 		opts = append(opts, adaptation.WithDisabledExternalConnections())
 	}
+	socketsBefore := ownSockets(nil)
 	a, err := adaptation.New("verif-runtime", "v0", syncFn, updateFn, opts...)
 	if err != nil {
 		return fmt.Errorf("adaptation.New: %w", err)
@@ -352,7 +358,7 @@ func (e *launchEnv) run(lc *launchCase) error {
 	for i := range lc.Obs {
 		po := &lc.Obs[i]
 		o := lc.Outcomes[po.File]
-		if lc.StartOK && (o == "" || o == probe.BDieLater) {
+		if lc.StartOK && active(o) {
 			po.AfterStart = stateCode(procState(po.Pid))
 		} else {
 			po.AfterStart = stateCode(waitNotRunning(po.Pid, 3*time.Second))
@@ -374,11 +380,13 @@ func (e *launchEnv) run(lc *launchCase) error {
 			}
 			lc.Events = append(lc.Events, eo)
 		}
-		fire(false, "runpod", "ev1")
-		fire(false, "create", "ev2")
+		if !lc.Silent || lc.PreEvents {
+			fire(false, "runpod", "ev1")
+			fire(false, "create", "ev2")
+		}
 		var dying []string
 		for f, o := range lc.Outcomes {
-			if o == probe.BDieLater {
+			if o == probe.BDieLater || o == probe.BHangLater {
 				if _, ok := pids[f]; ok {
 					dying = append(dying, f)
 				}
@@ -386,36 +394,71 @@ func (e *launchEnv) run(lc *launchCase) error {
 		}
 		sort.Strings(dying)
 		if len(dying) > 0 {
+			mine := ownSockets(socketsBefore) // the runtime's ends of this case's connections (and its listener)
 			for _, f := range dying {
 				os.WriteFile(filepath.Join(rep, "die."+f), nil, 0o644)
 			}
+			// the plugin's side: the process has exited, or reports that it has closed its end
 			for _, f := range dying {
-				if st := waitNotRunning(pids[f], 10*time.Second); !notRunning(st) {
-					e.c.HarnessError("%s: probe %s did not exit on request (state %q)", lc.ID, f, st)
+				if lc.Outcomes[f] == probe.BDieLater {
+					if st := waitNotRunning(pids[f], 10*time.Second); !notRunning(st) {
+						e.c.HarnessError("%s: probe %s did not exit on request (state %q)", lc.ID, f, st)
+					}
+				} else if !waitFile(filepath.Join(rep, f+".closed"), 10*time.Second) {
+					e.c.HarnessError("%s: probe %s did not close its connection on request", lc.ID, f)
 				}
 			}
-			time.Sleep(50 * time.Millisecond) // let the runtime's reader see the closed connection (not a bound)
-			fire(true, "runpod", "ev3")
-			fire(true, "create", "ev4")
-			fire(true, "runpod", "ev5")
-			for i := range lc.Obs {
-				if lc.Outcomes[lc.Obs[i].File] == probe.BDieLater {
-					lc.Obs[i].Reaped = stateCode(waitGone(lc.Obs[i].Pid, 10*time.Second))
+			if lc.Silent {
+				// The runtime's side, observed without going through the plugins: plugin.close() (run by the
+				// connection's close handler) sets the closed mark and then closes the runtime's end of the
+				// socket pair, which disappears from this process' descriptor table.  Nothing here is a bound:
+				// when the runtime has not noticed yet, Stop finds an open plugin and the case is an ordinary
+				// stop; the margin only makes "already marked closed, not yet pruned" the usual situation.
+				deadline := time.Now().Add(5 * time.Second)
+				for {
+					left := 0
+					for ino := range ownSockets(socketsBefore) {
+						if mine[ino] {
+							left++
+						}
+					}
+					if left <= len(mine)-len(dying) {
+						lc.Noticed = true
+						break
+					}
+					if time.Now().After(deadline) {
+						break
+					}
+					time.Sleep(2 * time.Millisecond)
+				}
+				time.Sleep(150 * time.Millisecond)
+			} else {
+				time.Sleep(50 * time.Millisecond) // let the runtime's reader see the closed connection (not a bound)
+				fire(true, "runpod", "ev3")
+				fire(true, "create", "ev4")
+				fire(true, "runpod", "ev5")
+				for i := range lc.Obs {
+					if o := lc.Outcomes[lc.Obs[i].File]; o == probe.BDieLater || o == probe.BHangLater {
+						lc.Obs[i].Reaped = stateCode(waitGone(lc.Obs[i].Pid, 10*time.Second))
+					}
 				}
 			}
 		}
 	}
 	a.Stop()
 	for i := range lc.Obs {
-		// kill and wait are synchronous inside Start/Stop; the margin only guards against a slow exit.
-		// A process that was already found running after it should have been killed is not waited for again.
+		// Kill and Wait are synchronous inside Start/Stop (and were awaited above for plugins dropped by an
+		// event): the process table entry must be gone — no live process, no zombie child of this process.
+		// The margin only guards against a slow exit.  A process that was already found running after it
+		// should have been killed is not waited for again.
 		d := 5 * time.Second
 		if !active(lc.Outcomes[lc.Obs[i].File]) && lc.Obs[i].AfterStart == 2 {
 			d = 300 * time.Millisecond
 		}
-		lc.Obs[i].AfterStop = stateCode(waitNotRunning(lc.Obs[i].Pid, d))
+		lc.Obs[i].AfterStop = stateCode(waitGone(lc.Obs[i].Pid, d))
 	}
-	// leave nothing behind whatever the verdict
+	// leave nothing behind whatever the verdict (a zombie of a plugin the runtime never waited for
+	// disappears with this process)
 	for _, po := range lc.Obs {
 		if po.AfterStop == 2 {
 			if p, err := os.FindProcess(po.Pid); err == nil {
@@ -468,9 +511,9 @@ func specConfig(ds []dropin, idx, base string) (string, bool) {
 
 func launches(o string) bool { return o != "execfail" }
 func configured(o string) bool {
-	return o == "" || o == probe.BCfgErr || o == probe.BSyncFail || o == probe.BDieLater
+	return o == "" || o == probe.BCfgErr || o == probe.BSyncFail || o == probe.BDieLater || o == probe.BHangLater
 }
-func active(o string) bool   { return o == "" || o == probe.BDieLater }
+func active(o string) bool   { return o == "" || o == probe.BDieLater || o == probe.BHangLater }
 func survives(o string) bool { return o == "" }
 
 // oracle evaluates the English statement on the observation; returns the list of clauses violated.
@@ -561,6 +604,8 @@ func oracle(lc *launchCase) []string {
 		}
 		if po.AfterStop == 2 {
 			bad = append(bad, d.file+": still running after Stop")
+		} else if po.AfterStop != 0 {
+			bad = append(bad, d.file+": dead but never waited for (zombie) after Stop")
 		}
 	}
 	if len(lc.Obs) != want {
@@ -614,6 +659,8 @@ func outcomeCoq(o string) string {
 		return "OSyncFail"
 	case probe.BDieLater:
 		return "ODieLater"
+	case probe.BHangLater:
+		return "OHangLater"
 	}
 	panic("outcome " + o)
 }
@@ -802,7 +849,7 @@ func genDropins(r *rand.Rand, i int) *launchCase {
 func genFaults(r *rand.Rand, i int, allowSlow bool) *launchCase {
 	lc := newCase("faults", i, r)
 	ns := nameSet{}
-	behs := []string{probe.BExit, probe.BCfgErr, probe.BSyncFail, probe.BDieLater, probe.BCloseFd, "junk"}
+	behs := []string{probe.BExit, probe.BCfgErr, probe.BSyncFail, probe.BDieLater, probe.BCloseFd, "junk", probe.BHangLater}
 	n := 2 + r.Intn(4)
 	forced := behs[i%len(behs)]
 	if allowSlow {
@@ -854,6 +901,31 @@ func genOrder(r *rand.Rand, i int) *launchCase {
 	return lc
 }
 
+// stopsilent: healthy plugins next to plugins that lose their connection some time after start-up — by exiting
+// or by closing it and staying alive —, then Stop with no event or request in between
+func genSilent(r *rand.Rand, i int) *launchCase {
+	lc := newCase("stopsilent", i, r)
+	lc.Silent, lc.PreEvents = true, i%4 >= 2
+	ns := nameSet{}
+	later := []string{probe.BHangLater, probe.BDieLater}
+	behs := []string{later[i%2]}
+	if r.Intn(2) == 0 {
+		behs = append(behs, later[r.Intn(2)])
+	}
+	if r.Intn(4) == 0 {
+		behs = append(behs, []string{probe.BExit, probe.BCloseFd, probe.BCfgErr}[r.Intn(3)])
+	}
+	for _, b := range behs {
+		b := b
+		lc.add(ns.fresh(r, func() string { return behName(r, b) }), "file", 0o755)
+	}
+	for k := r.Intn(4); k > 0; k-- {
+		lc.add(ns.fresh(r, func() string { return goodName(r) }), "file", execModes[r.Intn(len(execModes))])
+	}
+	shuffleEntries(r, lc)
+	return lc
+}
+
 // ---------------------------------------------------------------- corpus
 
 // loadCorpus reads <verif>/corpus/C18/*.json: directory contents replayed before the generated streams.
@@ -870,11 +942,14 @@ func loadCorpus() ([]*launchCase, error) {
 			ID      string   `json:"id"`
 			Entries []entry  `json:"entries"`
 			Dropins []dropin `json:"dropins"`
+			Silent  bool     `json:"silent_stop"`
+			PreEv   bool     `json:"pre_events"`
 		}
 		if err := json.Unmarshal(b, &in); err != nil {
 			return nil, fmt.Errorf("%s: %w", f, err)
 		}
-		lc := &launchCase{Stream: "corpus", ID: in.ID, Outcomes: map[string]string{}, Entries: []entry{}, Dropins: in.Dropins, Obs: []pluginObs{}, Events: []eventObs{}}
+		lc := &launchCase{Stream: "corpus", ID: in.ID, Outcomes: map[string]string{}, Entries: []entry{}, Dropins: in.Dropins, Obs: []pluginObs{}, Events: []eventObs{},
+			Silent: in.Silent, PreEvents: in.PreEv}
 		if lc.Dropins == nil {
 			lc.Dropins = []dropin{}
 		}
@@ -934,6 +1009,7 @@ func driveLaunch(c *hx.Ctx) error {
 		{"dropins", c.Pick(18, 180), genDropins},
 		{"faults", c.Pick(18, 240), func(r *rand.Rand, i int) *launchCase { return genFaults(r, i, i < slow) }},
 		{"order", c.Pick(10, 150), genOrder},
+		{"stopsilent", c.Pick(8, 120), genSilent},
 	}
 	corpus, err := loadCorpus()
 	if err != nil {
@@ -961,7 +1037,23 @@ func driveLaunch(c *hx.Ctx) error {
 					skipped++
 				}
 			}
-			c.Eval("launch/"+s.name+"/"+fmt.Sprint(lc.Entries, lc.Dropins), launched > 0 || !lc.StartOK)
+			if lc.Silent {
+				// non-trivial: Stop met at least one plugin whose lost connection the runtime had already noticed
+				later := 0
+				for _, po := range lc.Obs {
+					if o := lc.Outcomes[po.File]; o == probe.BDieLater || o == probe.BHangLater {
+						later++
+					}
+				}
+				c.Eval("launch/"+s.name+"/"+fmt.Sprint(lc.Entries, lc.Dropins, lc.PreEvents), later > 0 && lc.Noticed)
+				c.Count("c18.silent_stop.cases", 1)
+				c.Count("c18.silent_stop.lost_connections", later)
+				if lc.Noticed {
+					c.Count("c18.silent_stop.noticed_before_stop", 1)
+				}
+			} else {
+				c.Eval("launch/"+s.name+"/"+fmt.Sprint(lc.Entries, lc.Dropins), launched > 0 || !lc.StartOK)
+			}
 			c.Count("c18.cases."+s.name, 1)
 			c.Count("c18.entries", len(lc.Entries))
 			for _, en := range lc.Entries {
@@ -998,8 +1090,11 @@ func driveLaunch(c *hx.Ctx) error {
 	if c.Stats.Distribution["c18.launched"] == 0 || c.Stats.Distribution["c18.start.failed"] == 0 {
 		c.HarnessError("launch streams missed their target shape: %v", c.Stats.Distribution)
 	}
+	if n := c.Stats.Distribution["c18.silent_stop.cases"]; n == 0 || 2*c.Stats.Distribution["c18.silent_stop.noticed_before_stop"] < n {
+		c.HarnessError("silent-stop cases missed their target shape (Stop after the runtime has noticed a lost connection, no event in between): %v", c.Stats.Distribution)
+	}
 	c.Stats.Extra = map[string]interface{}{"probe_build_ms": buildMs, "cases": total, "cases_failing_go_oracle": failing,
 		"observed_only": "launch-once, environment, descriptor inheritance (/proc/self/fd of the child), kill and reap (/proc/<pid>/stat) are operating-system behaviour observed on the implementation; they are not proved"}
-	c.Stats.Rule = "generated plugin directories (probe copies with every execute-bit pattern, non-executables, sub-directories, symbolic links, non-binaries, malformed names), drop-in directories (all 9 state pairs of idx-name.conf x name.conf), failure modes chosen by the probe's file name (exits at once, never registers, closes its socket, Configure fails, Synchronize fails, dies later) started by a real Adaptation; a case is non-trivial when at least one process was launched or Start failed on a malformed name / unreadable drop-in"
+	c.Stats.Rule = "generated plugin directories (probe copies with every execute-bit pattern, non-executables, sub-directories, symbolic links, non-binaries, malformed names), drop-in directories (all 9 state pairs of idx-name.conf x name.conf), failure modes chosen by the probe's file name (exits at once, never registers, closes its socket, Configure fails, Synchronize fails, exits later, closes its connection later and keeps running) started by a real Adaptation; after the later deaths either three more events are sent (the dead plugins are dropped, killed and reaped) or - stream stopsilent and two corpus cases - NO event or request: the driver waits until the runtime has closed its end of the lost connections (its own descriptor table) and calls Stop; after Stop every launched pid must be gone from the process table (no live process, no zombie child); a case is non-trivial when at least one process was launched or Start failed on a malformed name / unreadable drop-in"
 	return nil
 }
